@@ -639,6 +639,44 @@ Proof.
   - destruct r; reflexivity.
 Qed.
 
+Lemma vstep_poll_eq (s : vsock) sc :
+  vstep cci s (VoPoll sc) =
+  (let '(s', r) := poll cci (set_sends s sc) in
+   (s', VrPoll r (rev (v_out s')) (rev (v_wakes s')) (v_arm_in s'), false, false)).
+Proof. reflexivity. Qed.
+
+Lemma poll_strict_no_bug (s s1 : vsock) sc r :
+  tinv ti tm s -> v_emsg_limit s = None -> script_legit sc = true ->
+  poll cci (set_sends s sc) = (s1, r) ->
+  forall pk w a, is_bug_result (FrPoll r pk w a) = false.
+Proof.
+  intros [Hx Hclk] Hl Esl Est pk w a.
+  pose proof (poll_x cci true Hcc ti tm (set_sends s sc) Hx Hclk) as Hp. rewrite Est in Hp.
+  assert (Hr : ret_ok true ti tm (envp (set_sends s sc)) s1 r) by (apply Hp; intros _; split; assumption).
+  destruct (ret_ok_result true ti tm _ _ _ Hr) as [Hnp Hnb].
+  cbn [is_bug_result]. destruct r as [| |e|]; try reflexivity; [|congruence].
+  destruct e; try reflexivity. destruct (Hnb b eq_refl) as [_ Hf]. discriminate.
+Qed.
+
+Lemma c10_step_at_nolimit c a (s s' : vsock) o out dw sw st :
+  tinv ti tm s -> v_emsg_limit s = None ->
+  vstep cci s o = (s', out, dw, sw) ->
+  fs_event st = fevent_of o -> fs_result st = fresult_of out ->
+  c10_step_ok_at c a st = true.
+Proof.
+  intros Ht Hl Est Hev Hres. unfold c10_step_ok_at, transport_legit. rewrite Hev, Hres.
+  assert (Happ : (forall sc, o <> VoPoll sc) -> is_bug_result (fresult_of out) = false).
+  { intro Hnp. pose proof (vstep_app_sx cci s o (proj2 (proj1 Ht)) Hnp) as H. rewrite Est in H.
+    apply fresult_not_bug. apply H. }
+  destruct o as [t|m|sc|m| |buf| | |n| |]; cbn [fevent_of];
+    try (rewrite Happ; [reflexivity|discriminate]).
+  destruct (script_legit sc) eqn:Esl; [|reflexivity].
+  destruct (limit_legit c (ca_lim a)); destruct (negb (ca_changed a)); cbn [andb]; try reflexivity.
+  rewrite vstep_poll_eq in Est. destruct (poll cci (set_sends s sc)) as [s1 r] eqn:Ep.
+  injection Est as _ <- _ _. cbn [fresult_of].
+  rewrite (poll_strict_no_bug s s1 sc r Ht Hl Esl Ep). reflexivity.
+Qed.
+
 Theorem c10_trace_nolimit c : forall ops (s : vsock) a,
   tinv ti tm s -> v_emsg_limit s = None ->
   Forall op_clock_ok ops -> Forall op_nolimit ops ->
@@ -648,26 +686,9 @@ Proof.
   inversion Hoc as [|? ? Ho Hrest]; subst. inversion Hnl as [|? ? Hn Hnrest]; subst.
   pose proof (vstep_x cci false Hcc ti tm s o Ht Ho (op_ef_false s o)) as Hs.
   pose proof (vstep_limit cci false ti tm s o Ht) as Hlim.
-  assert (Hstrict : op_script_legit o ->
-            let '(s', out, _, _) := vstep cci s o in out_ok true ti tm s s' out).
-  { intro Hsl. apply (vstep_x cci true Hcc ti tm s o Ht Ho).
-    destruct o; cbn [op_ef]; try exact I. intros _. split; assumption. }
-  assert (Happ : (forall sc, o <> VoPoll sc) ->
-            let '(s', out, _, _) := vstep cci s o in forall r x y z, out <> VrPoll r x y z).
-  { intro Hnp. pose proof (vstep_app_sx cci s o (proj2 (proj1 Ht)) Hnp) as H.
-    destruct (vstep cci s o) as [[[s' out] dw] sw]. apply H. }
   destruct (vstep cci s o) as [[[s' out] dw] sw] eqn:Est.
   cbn [c10_trace_from]. apply andb_true_iff. split.
-  - unfold c10_step_ok_at, transport_legit. cbn [fs_event fs_result].
-    destruct o as [t|m|sc|m| |buf| | |n| |]; cbn [fevent_of];
-      try (rewrite fresult_not_bug; [reflexivity|apply Happ; discriminate]).
-    destruct (script_legit sc) eqn:Esl; [|reflexivity].
-    destruct (limit_legit c (ca_lim a)); destruct (negb (ca_changed a)); cbn [andb]; try reflexivity.
-    specialize (Hstrict Esl). cbn [vstep] in Est.
-    destruct (poll cci (set_sends s sc)) as [s1 r]. injection Est as <- <- _ _.
-    cbn [out_ok] in Hstrict. destruct (ret_ok_result true ti tm _ _ _ Hstrict) as [Hnp Hnb].
-    cbn [fresult_of is_bug_result]. destruct r as [| |e|]; try reflexivity; [|congruence].
-    destruct e; try reflexivity. destruct (Hnb b eq_refl) as [_ Hf]. discriminate.
+  - eapply c10_step_at_nolimit; [exact Ht|exact Hl|exact Est|reflexivity|reflexivity].
   - destruct (poll_finished out) eqn:Ef; [reflexivity|].
     apply IH; [eapply out_ok_next; eauto| |exact Hrest|exact Hnrest].
     rewrite (Hlim Hs eq_refl). destruct o; try exact Hl. exact Hn.
@@ -798,8 +819,8 @@ Lemma inv_ring_b {CC} ti tm (s : vsock CC) :
   (match v_state s with Closed => true | _ => g_removed (v_tx s) =? ss_removed (v_segs s) end) = true.
 Proof.
   intros (_ & _ & _ & _ & (_ & _ & R2 & _) & _).
-  destruct (v_state s) eqn:E; try reflexivity; apply Z.eqb_eq;
-    (assert (Hc : v_state s <> Closed) by (rewrite E; discriminate)); specialize (R2 Hc); lia.
+  destruct (v_state s); try reflexivity; apply Z.eqb_eq;
+    (assert (Hc : g_removed (v_tx s) + 0 = ss_removed (v_segs s)) by (apply R2; discriminate)); lia.
 Qed.
 
 Definition err_exit_ops : list vop :=
